@@ -51,8 +51,7 @@ for pid in ALL:
         "technique": c["technique"],
     })
 
-if not manifest["not_applicable"]:
-    del manifest["not_applicable"]
+# (an empty list says: every listed property is claimed)
 
 with open(os.path.join(ROOT, "MANIFEST.json"), "w") as f:
     json.dump(manifest, f, indent=1, ensure_ascii=False)
